@@ -287,10 +287,12 @@ let parse_event (line : string) : ev =
 
 let keys_cfg = ref false
 let free_cfg = ref false
+let nested_cfg = ref false
 let cfg_of (toks : string list) : cfg =
   let a = assoc_of toks in
   keys_cfg := (get a "keys" = "1");
   free_cfg := (get a "free" = "1");
+  nested_cfg := (get a "nested" = "1");
   { c_rev = (get a "mode" = "rev"); c_cdis = (get a "cdis" = "1"); c_sdis = (get a "sdis" = "1");
     c_cleg = (get a "cleg" = "1"); c_sleg = (get a "sleg" = "1"); c_rawc = (get a "rawc" = "1"); c_raws = (get a "raws" = "1") }
 
@@ -326,7 +328,8 @@ let run_traces (path : string) =
              if !free_cfg then
                (* free-running traces have no controller actions: only the monitors that do not
                   depend on "what happened while the system settled after action n" apply *)
-               mon_wire c tr @ mon_C01 c tr @ mon_C02 c tr @ mon_C08 tr @ mon_C16 c tr @ mon_C17 c tr @ mon_C14 c tr @ mon_panic tr
+               mon_wire c tr @ mon_C01 c tr @ mon_C02 c tr @ mon_C08 tr @ mon_C16 c tr @
+               (if !nested_cfg then [] else mon_C17 c tr) @ mon_C14 c tr @ mon_panic tr
              else
              mon_wire c tr @ mon_C01 c tr @ mon_C02 c tr @ mon_C03 c tr @ mon_C04 c tr @ mon_C07 c tr @ mon_C08 tr @
              mon_C10 c tr @ mon_C14 c tr @ mon_C16 c tr @ mon_C17 c tr @ mon_C18 tr @ mon_panic tr @ mon_tables c tr @ mon_ctable c tr @ mon_negotiate c tr @ mon_overrun c tr @ mon_pipe c tr @ mon_registry c !keys_cfg tr in
